@@ -76,7 +76,7 @@ def _c13(ctx):
     out.append(r6)
     out.append(eff.rule_flags(ctx, 'X8', T.BAD_FLAGS))
     from .rules import bounds
-    out.append(_x7(ctx, bounds.CODEC_FILES, 50, 35))
+    out.append(_x7(ctx, bounds.CODEC_FILES, 50, 35, 15))
     out.append(_x9(ctx, bounds.CODEC_FILES, 5, 200))
     out.append(_x10(ctx))
     # functions documented to give the strong guarantee (object unchanged when they throw)
@@ -84,7 +84,7 @@ def _c13(ctx):
     return out
 
 
-def _x7(ctx, files, fl_idx, fl_proved):
+def _x7(ctx, files, fl_idx, fl_proved, fl_conv=0):
     from .rules import bounds
     from .core import RuleResult
     if ctx.prog.raw.get('precision', 2) != 2:
@@ -95,6 +95,7 @@ def _x7(ctx, files, fl_idx, fl_proved):
     r, n, p = bounds.rule_X7(ctx, files)
     r.floor('array indexes examined', n, fl_idx)
     r.floor('indexes proved in range', p, fl_proved)
+    r.floor('float-to-integer conversions examined', r.analysed.get('float_to_int_conversions', 0), fl_conv)
     return r
 
 
@@ -138,6 +139,7 @@ def _c04(ctx):
     r.floor('constant relations', n, 10)
     out.append(r)
     out.append(_w1(ctx, 'C04', 5))
+    out.append(_x7(ctx, ('src/UTMUPS.cpp',), 0, 0, 1))
     return out
 
 
@@ -154,7 +156,7 @@ def _c10(ctx):
 
 def _c18(ctx):
     return _exc_rules(ctx, 'C18') + [_w1(ctx, 'C18', 7), _x10(ctx), _x9(ctx, ('src/Geohash.cpp', 'src/GARS.cpp', 'src/Georef.cpp', 'src/OSGB.cpp'), 4, 80), _t3(ctx, {'Geohash', 'GARS', 'Georef', 'OSGB'}, 22),
-                                      _x7(ctx, ('src/Geohash.cpp', 'src/GARS.cpp', 'src/Georef.cpp', 'src/OSGB.cpp'), 25, 20)]
+                                      _x7(ctx, ('src/Geohash.cpp', 'src/GARS.cpp', 'src/Georef.cpp', 'src/OSGB.cpp'), 25, 20, 10)]
 
 
 def _t1(ctx, family, tags=None, floor=1, keep=None):
